@@ -9,9 +9,10 @@ using namespace vf;
 
 static std::atomic<int> g_inflight{0}; static std::atomic<int> g_maxflight{0}; static std::atomic<int> g_go{0};
 
+static unsigned g_opt = deps::OPT_ALL;
 static std::vector<std::string> run_script(const std::vector<ops::Op>& seq, int yield_mode, uint64_t salt, std::string* err) {
     std::vector<std::string> T; ops::Machine m; m.fl.check_model = false; m.fl.check_ledger = true; m.fl.check_routing = false; m.fl.allow_inject = false; m.log = &T;
-    m.start(false, false); m.mask = 7; m.rand_ctr = salt; deps::kit(0).yield_mode = yield_mode;
+    m.start(false, false); m.mask = 7; m.opt = g_opt; m.rand_ctr = salt; deps::kit(0).yield_mode = yield_mode; deps::kit(0).foreign_ok = !(g_opt & deps::OPT_ALLOC); deps::kit(0).track = (g_opt & deps::OPT_ALLOC) && (g_opt & deps::OPT_FREE);
     std::string r = m.run(seq); if (!r.empty()) *err = r;
     return T;
 }
@@ -22,6 +23,8 @@ static std::string oracle(const Case& c) {
     { std::string all = c.get("scripts"); size_t p = 0; for (;;) { size_t e = all.find(';', p); scripts.push_back(ops::from_hex(all.substr(p, e == std::string::npos ? std::string::npos : e - p))); if (e == std::string::npos) break; p = e + 1; } }
     while ((int)scripts.size() < n) scripts.push_back(scripts[0]); scripts.resize((size_t)n);
     for (auto& sc : scripts) for (auto& o : sc) if (o.code == ops::INJECT || o.code == ops::ENABLE) o.code = ops::QUERY;  // configuration is fixed before the threads start
+    // dependencies are injected once, before any thread starts; in some cases alloc/free are left NULL (libc defaults)
+    g_opt = c.u("libc_alloc") ? deps::OPT_TIME : deps::OPT_ALL; deps::inject(0, g_opt); polyseed_enable_features(7);
     std::vector<std::vector<std::string>> conc((size_t)n), solo((size_t)n); std::vector<std::string> errs((size_t)n), errs2((size_t)n);
     g_go.store(0, std::memory_order_relaxed); g_maxflight.store(0, std::memory_order_relaxed); std::vector<std::thread> th;
     for (int i = 0; i < n; i++) th.emplace_back([&, i]() {
@@ -36,7 +39,7 @@ static std::string oracle(const Case& c) {
     for (int i = 0; i < n; i++) { if (conc[(size_t)i].size() != solo[(size_t)i].size()) return "thread " + std::to_string(i) + ": transcript length differs from the serial run";
         for (size_t j = 0; j < conc[(size_t)i].size(); j++) if (conc[(size_t)i][j] != solo[(size_t)i][j]) return "thread " + std::to_string(i) + " step " + std::to_string(j) + " observed [" + conc[(size_t)i][j].substr(0, 300) + "] but a serial execution gives [" + solo[(size_t)i][j].substr(0, 300) + "]"; }
     int mf = g_maxflight.load(std::memory_order_relaxed); size_t total = 0; for (auto& s : scripts) total += s.size();
-    ev.eval(); ev.count("threads:" + std::to_string(n)); ev.count("ops-executed", total); ev.count("yield-mode:" + std::to_string(ym));
+    ev.eval(); ev.count("threads:" + std::to_string(n)); ev.count("ops-executed", total); ev.count("yield-mode:" + std::to_string(ym)); ev.count(c.u("libc_alloc") ? "allocator:libc-default" : "allocator:injected");
     if (mf >= 2) { ev.nt(c); ev.count("overlapping(>=2 threads in flight)"); ev.sample("n=" + std::to_string(n), c); } else ev.count("trivial(no overlap observed)");
     return "";
 }
@@ -48,7 +51,7 @@ static void run() {
     rc_run("c20-threads", a.n(25, 1500), 100, [&]() {
         int n = *rc::gen::element(2, 4, 8, 16, 4, 8); int ym = *rc::gen::element(0, 1, 1, 2, 5); std::string all;
         for (int i = 0; i < n; i++) { auto seq = *seqgen::sequence(wt, *rc::gen::element(10, 25, 50)); if (i) all += ";"; all += ops::to_hex(seq); }
-        Case c; c.set("n", (uint64_t)n); c.set("yield", (uint64_t)ym); c.set("scripts", all); set_current(c);
+        Case c; c.set("n", (uint64_t)n); c.set("yield", (uint64_t)ym); c.set("scripts", all); c.set("libc_alloc", *in_range<unsigned>(0, 2)); set_current(c);
         std::string m = oracle(c); if (!m.empty()) VF_FAIL(c, m);
     });
 }
